@@ -43,6 +43,9 @@ TRANSLATORS = ["exact_scalar", "sampler_dispatch", "decompose"]
 
 
 # ----------------------------------------------------------------------------------------------
+from harness.exactdist import unjitted_component_sampler
+
+
 def sample_with_probabilities(sampler, nshots):
     """real sample_program on real channel samples; then forced sampling of exactly these rows to read the
     conditionals the sampler used.  Returns (shots [n, nout] in program order, prob [n], bad list)"""
@@ -55,7 +58,7 @@ def sample_with_probabilities(sampler, nshots):
     # run the real sample_program, with the jitted wrapper of the autoregressive loop replaced by the function it wraps
     # (XLA compilation of a 34-step unrolled loop takes minutes; `evaluate` itself stays jitted; JIT == non-JIT is C06's business)
     jit_orig = S._sample_component_jit
-    S._sample_component_jit = S._sample_component
+    S._sample_component_jit = unjitted_component_sampler(S)
     try:
         shots = np.asarray(S.sample_program(prog, f, key)).astype(bool)
     finally:
@@ -77,7 +80,7 @@ def sample_with_probabilities(sampler, nshots):
         state["cond"].append(pp)
         return jnp.array(bits)
     jax.random.bernoulli = fake
-    S._sample_component_jit = S._sample_component
+    S._sample_component_jit = unjitted_component_sampler(S)
     try:
         again = np.asarray(S.sample_program(prog, f, jax.random.key(0))).astype(bool)
     finally:
